@@ -15,14 +15,14 @@ from pero_ocr.document_ocr import page_parser as pp
 def _layout(tag, ids, comps):
     pl = L.PageLayout(id='page' + tag, page_size=(10, 10))
     regs = [L.RegionLayout('r0', None)]
-    if len(ids) > 1:
+    if len(ids) > 2:
         regs.append(L.RegionLayout('r1', None))
     for i, lid in enumerate(ids):
         hl, hc, hk = comps[i]
         line = L.TextLine(id=lid, logits='%s_logits_%d' % (tag, i) if hl else None,
                           characters='%s_chars_%d' % (tag, i) if hc else None,
                           logit_coords='%s_coords_%d' % (tag, i) if hk else None)
-        regs[0 if i == 0 else len(regs) - 1].lines.append(line)
+        regs[0 if i < 2 else len(regs) - 1].lines.append(line)
     pl.regions = regs
     return pl
 
